@@ -38,6 +38,11 @@ type c01ps struct{ s string }
 
 func (x *c01ps) String() string { return x.s }
 
+// a named string type that is an HTMLer
+type c01nh string
+
+func (x c01nh) HTML() template.HTML { return template.HTML("<u>" + string(x) + "</u>") }
+
 type c01hold struct {
 	H *c01ph
 	S *c01ps
@@ -222,7 +227,8 @@ func init() {
 			pg := c01page{Body: template.HTML(p), Title: p, Role: c01role(p)}
 			extra := map[string]interface{}{"pg": pg, "ppg": &pg, "pgs": []c01page{pg}, "pgm": map[string]c01page{"k": pg}, "pgi": []interface{}{pg, &pg},
 				"hold": c01hold{H: &c01ph{p}, S: &c01ps{p}, V: c01both{p}}, "phold": &c01hold{H: &c01ph{p}, S: &c01ps{p}}, "holds": []c01hold{{H: &c01ph{p}}}, "pth": &c01ph{p},
-				"tm": c01time, "ptm": &c01time, "sr": c01strer{p}, "psr": &c01strer{p}, "srs": []interface{}{c01strer{p}}, "both": c01both{p}, "ps": p}
+				"tm": c01time, "ptm": &c01time, "hs": []template.HTML{template.HTML(p)}, "ha": [2]template.HTML{template.HTML(p), template.HTML(p)}, "hms": map[string]template.HTML{"k": template.HTML(p)}, "phs": &[]template.HTML{template.HTML(p)},
+				"nhs": []c01nh{c01nh(p)}, "rs": []c01role{c01role(p)}, "sr": c01strer{p}, "psr": &c01strer{p}, "srs": []interface{}{c01strer{p}}, "both": c01both{p}, "ps": p}
 			esc := template.HTMLEscapeString(p)
 			for _, t := range []struct{ tmpl, want string }{
 				{"[[<%= pg.Body %>]]", p}, {"[[<%= ppg.Body %>]]", p}, {"[[<%= pgs[0].Body %>]]", p}, {"[[<%= pgm[\"k\"].Body %>]]", p},
@@ -237,6 +243,10 @@ func init() {
 				// a time printed with a layout that came from string data: the layout's text is text
 				{"<% let TIME_FORMAT = ps %>[[<%= tm %>]]", template.HTMLEscapeString(c01time.Format(p))}, {"<% let TIME_FORMAT = ps %>[[<%= ptm %>]]", template.HTMLEscapeString(c01time.Format(p))},
 				{"<% let TIME_FORMAT = \"<2006>\" %>[[<%= for (x) in [tm] { %><%= x %><% } %>]]", "&lt;2020&gt;"},
+				// typed slices, arrays and maps of trusted HTML (and of a named string type that is an HTMLer), read by a loop and by index
+				{"[[<%= for (x) in hs { %><%= x %><% } %>]]", p}, {"[[<%= for (i, x) in ha { %><%= x %><% } %>]]", p + p}, {"[[<%= for (k, x) in hms { %><%= x %><% } %>]]", p}, {"[[<%= hs[0] %>]]", p}, {"[[<%= hms[\"k\"] %>]]", p},
+				{"[[<%= for (x) in phs { %><%= x %><% } %>]]", p}, {"[[<%= for (x) in nhs { %><%= x %><% } %>]]", "<u>" + p + "</u>"}, {"[[<%= nhs[0] %>]]", "<u>" + p + "</u>"}, {"<%= for (x) in hs { %><% let q = x %>[[<%= q %>]]<% } %>", p},
+				{"[[<%= for (x) in rs { %><%= x %><% } %>]]", "?" + esc},
 				{"[[<%= both %>]]", p}, {"<% let q = both %>[[<%= q %>]]", p},
 				// debug / inspect print data: only the pre tags are markup
 				{"[[<%= debug(ps) %>]]", "<pre>" + esc + "</pre>"}, {"[[<%= debug(sr) %>]]", "<pre>" + template.HTMLEscapeString(fmt.Sprintf("%+v", c01strer{p})) + "</pre>"},
